@@ -17,6 +17,7 @@ import os
 import re
 import shutil
 import signal
+import subprocess
 import sys
 import tempfile
 import time
@@ -115,6 +116,15 @@ class State:
         if FAILFAST and os.path.exists(FAILFAST):
             raise StopRun()
         ctx = Ctx(scratch=self.scratch)
+        journal = os.environ.get("VP_JOURNAL")
+        if journal:
+            # the case in flight, so that the parent can name it if this process is killed by a signal (SIGBUS from a
+            # memory map over a file the code under test truncated, SIGSEGV in native code, ...)
+            try:
+                with open(os.path.join(journal, f"{os.getpid()}.json"), "w") as jf:
+                    json.dump({"property": self.mod.ID, "case": case}, jf, default=str)
+            except OSError:
+                journal = None
         timeout = getattr(self.mod, "CASE_TIMEOUT", DEFAULT_CASE_TIMEOUT)
         if timeout and getattr(self, "hang_seen", False):
             timeout = min(timeout, 20)  # one hang has been reported already: do not wait the full time for each further one
@@ -127,6 +137,11 @@ class State:
             finally:
                 if timeout:
                     signal.setitimer(signal.ITIMER_REAL, 0)
+                if journal:
+                    try:
+                        os.unlink(os.path.join(journal, f"{os.getpid()}.json"))
+                    except OSError:
+                        pass
         except CaseTimeout:
             self.hang_seen = True
             ctx.fail(f"{self.mod.ID}.hang", f"the case did not finish within {timeout} s (a call into the repository does not "
@@ -337,6 +352,40 @@ def _corpus_cases(mod_id):
     return cases
 
 
+def _confirm_killed(mod_id, journal_dir):
+    """A worker process died. Every case that was in flight is replayed alone in a process of its own, twice; a case that
+    kills its process with the same signal both times is a finding (`<ID>.process_killed_<SIGNAL>`): no property allows
+    the interpreter to be taken down. Anything else (a kill that does not reproduce: out-of-memory killer, operator)
+    stays a harness error."""
+    out = {}
+    for jf in sorted(Path(journal_dir).glob("*.json")):
+        try:
+            obj = json.loads(jf.read_text())
+        except Exception:  # noqa - half-written journal
+            continue
+        sigs = []
+        for _ in range(2):
+            env = dict(os.environ)
+            env.pop("VP_JOURNAL", None)
+            env.pop("VP_FAILFAST_FLAG", None)
+            try:
+                r = subprocess.run([sys.executable, "-m", "vp.driver", mod_id, "--replay", str(jf)], env=env, cwd=str(VERIF),
+                                   capture_output=True, timeout=DEFAULT_CASE_TIMEOUT + 60)
+                rc = r.returncode
+            except subprocess.TimeoutExpired:
+                rc = 0
+            sigs.append(-rc if rc < 0 else (rc - 128 if rc > 128 else 0))
+        if sigs[0] and sigs[0] == sigs[1]:
+            try:
+                name = signal.Signals(sigs[0]).name
+            except ValueError:
+                name = f"SIG{sigs[0]}"
+            out[f"{mod_id}.process_killed_{name}"] = {
+                "case": obj["case"], "shard": "journal",
+                "msg": f"the case kills the Python process with {name} (reproduced twice in a process of its own)"}
+    return out
+
+
 def main(argv=None):
     ap = argparse.ArgumentParser()
     ap.add_argument("id")
@@ -389,6 +438,8 @@ def main(argv=None):
     exhaustive = False
     stuck = False
     ctxmp = mp.get_context("fork")
+    journal_dir = tempfile.mkdtemp(prefix="vp_journal_", dir="/dev/shm" if os.path.isdir("/dev/shm") else None)
+    os.environ["VP_JOURNAL"] = journal_dir
     with cf.ProcessPoolExecutor(max_workers=max(1, args.shards), mp_context=ctxmp) as ex:
         futs = []
         corpus = _corpus_cases(mod_id)
@@ -427,6 +478,13 @@ def main(argv=None):
                 except Exception:  # noqa
                     pass
     m = _merge(parts)
+    os.environ.pop("VP_JOURNAL", None)
+    if m["harness_error"] and "BrokenProcessPool" in (m["harness_error"].get("traceback") or ""):
+        killed = _confirm_killed(mod_id, journal_dir)
+        if killed:
+            m["failures"].update(killed)
+            m["harness_error"] = None
+    shutil.rmtree(journal_dir, ignore_errors=True)
     # ---- second engine (thorough tier, modules that ask for it): coverage-guided fuzzing of the same property
     second = None
     ath = getattr(mod, "ATHERIS", None)
